@@ -22,6 +22,7 @@ const (
 	vpSFCleanup
 	vpWaitAfterSend
 	vpSecWritten
+	vpBufBetweenLoads
 )
 
 // exported aliases for harness code living outside this package
@@ -39,6 +40,7 @@ const (
 	VPSFCleanup          = vpSFCleanup
 	VPWaitAfterSend      = vpWaitAfterSend
 	VPSecWritten         = vpSecWritten
+	VPBufBetweenLoads    = vpBufBetweenLoads
 )
 
 var verifHook atomic.Pointer[func(id int)]
